@@ -745,7 +745,7 @@ def _callee_stage(name):
         return "init"
     if name == "wrapped":
         return "step_entry"
-    return "step_entry:" + name if False else "step_entry"
+    return "step_entry"
 
 
 def _stage_of(sc):
